@@ -188,28 +188,33 @@ func mathRad(L *LState) int {
 }
 
 func mathRandom(L *LState) int {
+	// every state draws from its own source: states running in other goroutines must not perturb the sequence
+	if L.G.random == nil {
+		L.G.random = rand.New(rand.NewSource(rand.Int63()))
+	}
+	r := L.G.random
 	switch L.GetTop() {
 	case 0:
-		L.Push(LNumber(rand.Float64()))
+		L.Push(LNumber(r.Float64()))
 	case 1:
 		n := L.CheckInt(1)
 		if n < 1 {
 			L.ArgError(1, "interval is empty")
 		}
-		L.Push(LNumber(rand.Intn(n) + 1))
+		L.Push(LNumber(r.Intn(n) + 1))
 	default:
 		min := L.CheckInt(1)
 		max := L.CheckInt(2) + 1
 		if max-min <= 0 {
 			L.ArgError(2, "interval is empty")
 		}
-		L.Push(LNumber(rand.Intn(max-min) + min))
+		L.Push(LNumber(r.Intn(max-min) + min))
 	}
 	return 1
 }
 
 func mathRandomseed(L *LState) int {
-	rand.Seed(L.CheckInt64(1))
+	L.G.random = rand.New(rand.NewSource(L.CheckInt64(1)))
 	return 0
 }
 
